@@ -70,25 +70,26 @@ def fam_fixed(M, reg):
         Fm = 'naive_min_max_quantize.' + reg[opn].__name__
         tag = f'{opn}.a{bits}.{"sym" if asym else "asym"}'; s_want, z_want = cc.FIXED_REF[(opn, bits)]; qmin, qmax = cc.qrange(bits)
         m = mg.build(opn); oi, gi = mg.infos(m, qt, srq(qt, bits, asym)); inputs = dict(family='fixed', op=opn, bits=bits, act_symmetric=asym)
-        with symnp.session() as cx:
-            qsv = sym_qsv(m, m.ins + m.outs)
-            res = by_name(reg[opn](oi, gi, qsv)); out = res['y'].producer; p = out.parameters
-            ok = (isinstance(p, qt.UniformQuantParams) and isinstance(p.scale, np.ndarray) and np.size(p.scale) == 1 and np.size(p.zero_point) == 1
-                  and cc.fr(np.ravel(p.scale)[0]) == s_want and int(np.ravel(p.zero_point)[0]) == z_want and p.num_bits == bits and p.quantized_dimension is None
-                  and out.transformations == [qt.QuantTransformation.ADD_DEQUANTIZE])
-            obs = dict(scale=str(getattr(p, 'scale', None)), zero_point=str(getattr(p, 'zero_point', None)), num_bits=getattr(p, 'num_bits', None), qdim=getattr(p, 'quantized_dimension', None))
-            goals.append(G(f'{tag}.output-scale-{s_want.numerator}/{s_want.denominator}-zero-point-{z_want}', Fm, ok=bool(ok), backend='cpython-exec', inputs=inputs, observed=obs,
-                           clause=f'for every calibrated min/max: output scale == {s_want} (one element), zero point == {z_want}, num_bits == {bits}, quantized_dimension is None'))
-            # the statistics downstream ops will see are the fixed range itself
-            s, z = s_want, z_want; hi = (qmax - z) * s; lo = -hi if asym else (qmin - z) * s
-            st = qsv['y']; got = (st['min'], st['max'])
-            ok2 = all(not isinstance(v, SymArray) and np.size(v) == 1 for v in got) and cc.fr(np.ravel(got[0])[0]) == lo and cc.fr(np.ravel(got[1])[0]) == hi
-            goals.append(G(f'{tag}.output-statistics-overwritten-with-the-fixed-range', 'min_max_quantize_utils.materialize_op_with_output_activation_constraint', ok=bool(ok2), backend='cpython-exec', inputs=inputs,
-                           observed=str(got), clause=f'tensor_name_to_qsv[output] == (min {lo}, max {hi}) = dequantized ends of the fixed range (-max when the activation config is symmetric)'))
-            pin = res['x'].consumers[0].parameters
-            goals.append(G(f'{tag}.input-parameters-from-its-own-statistics', 'min_max_quantize_utils.materialize_op_with_output_activation_constraint', stats_pre(m, m.ins) + cx.hyps(),
-                           z3.And(scale_goal(pin, 'x', bits, asym), z3.BoolVal(pin.num_bits == bits and pin.symmetric is asym and pin.quantized_dimension is None)), inputs=inputs,
-                           replay=lambda model, b=bits, a=asym: cc.native_params(M, dict(bits=b, sym=a, gran='TENSORWISE', content=False), {'mn': model.get('mn_x'), 'mx': model.get('mx_x')})))
+        with cc.guarded(goals, tag, Fm, inputs):
+            with symnp.session() as cx:
+                qsv = sym_qsv(m, m.ins + m.outs)
+                res = by_name(reg[opn](oi, gi, qsv)); out = res['y'].producer; p = out.parameters
+                ok = (isinstance(p, qt.UniformQuantParams) and isinstance(p.scale, np.ndarray) and np.size(p.scale) == 1 and np.size(p.zero_point) == 1
+                      and cc.fr(np.ravel(p.scale)[0]) == s_want and int(np.ravel(p.zero_point)[0]) == z_want and p.num_bits == bits and p.quantized_dimension is None
+                      and out.transformations == [qt.QuantTransformation.ADD_DEQUANTIZE])
+                obs = dict(scale=str(getattr(p, 'scale', None)), zero_point=str(getattr(p, 'zero_point', None)), num_bits=getattr(p, 'num_bits', None), qdim=getattr(p, 'quantized_dimension', None))
+                goals.append(G(f'{tag}.output-scale-{s_want.numerator}/{s_want.denominator}-zero-point-{z_want}', Fm, ok=bool(ok), backend='cpython-exec', inputs=inputs, observed=obs,
+                               clause=f'for every calibrated min/max: output scale == {s_want} (one element), zero point == {z_want}, num_bits == {bits}, quantized_dimension is None'))
+                # the statistics downstream ops will see are the fixed range itself
+                s, z = s_want, z_want; hi = (qmax - z) * s; lo = -hi if asym else (qmin - z) * s
+                st = qsv['y']; got = (st['min'], st['max'])
+                ok2 = all(not isinstance(v, SymArray) and np.size(v) == 1 for v in got) and cc.fr(np.ravel(got[0])[0]) == lo and cc.fr(np.ravel(got[1])[0]) == hi
+                goals.append(G(f'{tag}.output-statistics-overwritten-with-the-fixed-range', 'min_max_quantize_utils.materialize_op_with_output_activation_constraint', ok=bool(ok2), backend='cpython-exec', inputs=inputs,
+                               observed=str(got), clause=f'tensor_name_to_qsv[output] == (min {lo}, max {hi}) = dequantized ends of the fixed range (-max when the activation config is symmetric)'))
+                pin = res['x'].consumers[0].parameters
+                goals.append(G(f'{tag}.input-parameters-from-its-own-statistics', 'min_max_quantize_utils.materialize_op_with_output_activation_constraint', stats_pre(m, m.ins) + cx.hyps(),
+                               z3.And(scale_goal(pin, 'x', bits, asym), z3.BoolVal(pin.num_bits == bits and pin.symmetric is asym and pin.quantized_dimension is None)), inputs=inputs,
+                               replay=lambda model, b=bits, a=asym: cc.native_params(M, dict(bits=b, sym=a, gran='TENSORWISE', content=False), {'mn': model.get('mn_x'), 'mx': model.get('mx_x')})))
     # _get_min_max_from_quant_params for ARBITRARY parameters
     Fq = 'min_max_quantize_utils._get_min_max_from_quant_params'; s, = z3.Reals('s'); z = z3.Int('zp')
     for bits, sym in itertools.product((8, 16), (True, False)):
@@ -102,13 +103,28 @@ def fam_fixed(M, reg):
     return goals
 
 # ------------------------------------------------------------------------------------------------ (d) same-scale ops
+def arr_same(a, b):
+    """same array value: the same object, symbolic arrays with the identical term / dtype / shape, or equal concrete arrays"""
+    if a is b: return True
+    if isinstance(a, SymArray) or isinstance(b, SymArray):
+        return isinstance(a, SymArray) and isinstance(b, SymArray) and a.term.eq(b.term) and a.dtype == b.dtype and a.shape == b.shape
+    a, b = np.asarray(a), np.asarray(b)
+    return a.shape == b.shape and a.dtype == b.dtype and bool(np.array_equal(a, b))
+def same_params(a, b):
+    """'share the parameters' as the property means it: equal (scale, zero_point, num_bits, symmetric, quantized_dimension); quantized_data
+    belongs to each tensor and is not part of the comparison"""
+    if a is None or b is None: return False
+    return a is b or (type(a) is type(b) and a.num_bits == b.num_bits and a.symmetric == b.symmetric and a.quantized_dimension == b.quantized_dimension
+                      and arr_same(a.scale, b.scale) and arr_same(a.zero_point, b.zero_point))
+
 def classify(res, m):
-    """behavioural classification of one materialization: 'input' = every output carries THE parameter object of the (single)
-    float activation input; 'output' = every float input carries THE parameter object of the single output; else 'none'"""
+    """behavioural classification of one materialization: 'input' = every output carries the parameters (scale, zero point, bits,
+    symmetry, quantized dimension) of the (single) float activation input; 'output' = every float input carries those of the single
+    output; else 'none' (with symbolic statistics two tensors have equal parameters only if they were derived from the same statistics)"""
     ins = [r for r in res if r.consumers and r.consumers[0].parameters is not None]
     outs = [r for r in res if r.producer is not None and r.producer.parameters is not None]
-    if outs and len(ins) == 1 and all(o.producer.parameters is ins[0].consumers[0].parameters for o in outs): return 'input'
-    if len(outs) == 1 and ins and all(i.consumers[0].parameters is outs[0].producer.parameters for i in ins): return 'output'
+    if outs and len(ins) == 1 and all(same_params(o.producer.parameters, ins[0].consumers[0].parameters) for o in outs): return 'input'
+    if len(outs) == 1 and ins and all(same_params(i.consumers[0].parameters, outs[0].producer.parameters) for i in ins): return 'output'
     return 'none'
 
 def fam_same_scale(M, reg):
@@ -124,34 +140,54 @@ def fam_same_scale(M, reg):
         for bits, asym in ACT_CONFIGS:
             tag = f'{opn}.a{bits}.{"sym" if asym else "asym"}'; inputs = dict(family='same-scale', op=opn, bits=bits, act_symmetric=asym)
             m = mg.build(opn, bias=False); oi, gi = mg.infos(m, qt, srq(qt, bits, asym))
-            with symnp.session() as cx:
-                qsv = sym_qsv(m, m.ins + m.outs); before = dict(qsv)
-                res = reg[opn](oi, gi, qsv); kind = classify(res, m); rn = by_name(res)
-                goals.append(G(f'{tag}.constraint-kind-is-{want[opn]}', Fm, ok=(kind == want[opn]), backend='cpython-exec', inputs=inputs, observed=dict(observed_kind=kind),
-                               clause=f'{opn}: outputs share the input parameters iff the property lists it as a same-as-input op; inputs share the output parameters iff it is CONCATENATION (expected: {want[opn]})'))
-                if want[opn] == 'input':
-                    x = rn['x']; pin = x.consumers[0].parameters
-                    Fi = 'min_max_quantize_utils._materialize_standard_op_with_same_as_input_scale'
-                    ok = all(rn[m.names[o]].producer is not None and rn[m.names[o]].producer.parameters is pin and rn[m.names[o]].producer.transformations == [qt.QuantTransformation.ADD_DEQUANTIZE] for o in m.outs) \
-                         and all(rn[m.names[a]].consumers[0].parameters is None and rn[m.names[a]].consumers[0].transformations == [qt.QuantTransformation.NO_QUANTIZE] for a in m.aux)
-                    goals.append(G(f'{tag}.every-output-carries-the-input-parameter-object', Fi, ok=bool(ok), backend='cpython-exec', inputs=inputs,
-                                   clause='for all statistics: out.producer.parameters is in.consumers[0].parameters for every output; integer operands (shape/perm/axis/begin/end/strides) get NO_QUANTIZE and no parameters'))
-                    ok = all(qsv[m.names[o]] is before['x'] for o in m.outs) and qsv['x'] is before['x']
-                    goals.append(G(f'{tag}.output-statistics-become-the-input-statistics', Fi, ok=bool(ok), backend='cpython-exec', inputs=inputs,
-                                   clause='tensor_name_to_qsv[output] is tensor_name_to_qsv[input] afterwards (downstream ops derive their parameters from the constrained range)'))
-                    goals.append(G(f'{tag}.input-parameters-from-its-own-statistics', Fi, stats_pre(m, m.ins + m.outs) + cx.hyps(),
-                                   z3.And(scale_goal(pin, 'x', bits, asym), z3.BoolVal(pin.num_bits == bits and pin.symmetric is asym and pin.quantized_dimension is None)), inputs=inputs,
-                                   replay=lambda model, b=bits, a=asym: cc.native_params(M, dict(bits=b, sym=a, gran='TENSORWISE', content=False), {'mn': model.get('mn_x'), 'mx': model.get('mx_x')})))
-                elif want[opn] == 'output':
-                    y = rn['y']; pout = y.producer.parameters if y.producer else None
-                    Fo = 'min_max_quantize_utils._materialize_standard_op_with_same_as_output_scale'
-                    ok = pout is not None and all(rn[m.names[i]].consumers[0].parameters is pout and rn[m.names[i]].consumers[0].transformations == [qt.QuantTransformation.ADD_QUANTIZE] for i in m.ins)
-                    goals.append(G(f'{tag}.every-input-carries-the-output-parameter-object', Fo, ok=bool(ok), backend='cpython-exec', inputs=inputs,
-                                   clause='for all statistics: in.consumers[0].parameters is out.producer.parameters for every input'))
-                    if pout is not None:
-                        goals.append(G(f'{tag}.output-parameters-from-its-own-statistics', Fo, stats_pre(m, m.ins + m.outs) + cx.hyps(),
-                                       z3.And(scale_goal(pout, 'y', bits, asym), z3.BoolVal(pout.num_bits == bits and pout.symmetric is asym and pout.quantized_dimension is None)), inputs=inputs,
-                                       replay=lambda model, b=bits, a=asym: cc.native_params(M, dict(bits=b, sym=a, gran='TENSORWISE', content=False), {'mn': model.get('mn_y'), 'mx': model.get('mx_y')})))
+            with cc.guarded(goals, tag, Fm, inputs):
+                with symnp.session() as cx:
+                    qsv = sym_qsv(m, m.ins + m.outs); before = dict(qsv)
+                    res = reg[opn](oi, gi, qsv); kind = classify(res, m); rn = by_name(res)
+                    goals.append(G(f'{tag}.constraint-kind-is-{want[opn]}', Fm, ok=(kind == want[opn]), backend='cpython-exec', inputs=inputs, observed=dict(observed_kind=kind),
+                                   clause=f'{opn}: outputs share the input parameters iff the property lists it as a same-as-input op; inputs share the output parameters iff it is CONCATENATION (expected: {want[opn]})'))
+                    if want[opn] == 'input':
+                        x = rn['x']; pin = x.consumers[0].parameters
+                        Fi = 'min_max_quantize_utils._materialize_standard_op_with_same_as_input_scale'
+                        ok = all(rn[m.names[o]].producer is not None and same_params(rn[m.names[o]].producer.parameters, pin) and rn[m.names[o]].producer.transformations == [qt.QuantTransformation.ADD_DEQUANTIZE] for o in m.outs) \
+                             and all(rn[m.names[a]].consumers[0].parameters is None and rn[m.names[a]].consumers[0].transformations == [qt.QuantTransformation.NO_QUANTIZE] for a in m.aux)
+                        goals.append(G(f'{tag}.every-output-carries-the-input-parameters', Fi, ok=bool(ok), backend='cpython-exec', inputs=inputs,
+                                       clause='for all statistics: out.producer.parameters == in.consumers[0].parameters on (scale, zero_point, num_bits, symmetric, quantized_dimension) for every output; integer operands (shape/perm/axis/begin/end/strides) get NO_QUANTIZE and no parameters'))
+                        ok = all(qsv[m.names[o]] is before['x'] or (arr_same(qsv[m.names[o]]['min'], before['x']['min']) and arr_same(qsv[m.names[o]]['max'], before['x']['max'])) for o in m.outs) and qsv['x'] is before['x']
+                        goals.append(G(f'{tag}.output-statistics-become-the-input-statistics', Fi, ok=bool(ok), backend='cpython-exec', inputs=inputs,
+                                       clause='tensor_name_to_qsv[output] holds the input\'s min / max afterwards (downstream ops derive their parameters from the constrained range)'))
+                        goals.append(G(f'{tag}.input-parameters-from-its-own-statistics', Fi, stats_pre(m, m.ins + m.outs) + cx.hyps(),
+                                       z3.And(scale_goal(pin, 'x', bits, asym), z3.BoolVal(pin.num_bits == bits and pin.symmetric is asym and pin.quantized_dimension is None)), inputs=inputs,
+                                       replay=lambda model, b=bits, a=asym: cc.native_params(M, dict(bits=b, sym=a, gran='TENSORWISE', content=False), {'mn': model.get('mn_x'), 'mx': model.get('mx_x')})))
+                    elif want[opn] == 'output':
+                        y = rn['y']; pout = y.producer.parameters if y.producer else None
+                        Fo = 'min_max_quantize_utils._materialize_standard_op_with_same_as_output_scale'
+                        ok = pout is not None and all(same_params(rn[m.names[i]].consumers[0].parameters, pout) and rn[m.names[i]].consumers[0].transformations == [qt.QuantTransformation.ADD_QUANTIZE] for i in m.ins)
+                        goals.append(G(f'{tag}.every-input-carries-the-output-parameters', Fo, ok=bool(ok), backend='cpython-exec', inputs=inputs,
+                                       clause='for all statistics: in.consumers[0].parameters == out.producer.parameters on (scale, zero_point, num_bits, symmetric, quantized_dimension) for every input'))
+                        if pout is not None:
+                            goals.append(G(f'{tag}.output-parameters-from-its-own-statistics', Fo, stats_pre(m, m.ins + m.outs) + cx.hyps(),
+                                           z3.And(scale_goal(pout, 'y', bits, asym), z3.BoolVal(pout.num_bits == bits and pout.symmetric is asym and pout.quantized_dimension is None)), inputs=inputs,
+                                           replay=lambda model, b=bits, a=asym: cc.native_params(M, dict(bits=b, sym=a, gran='TENSORWISE', content=False), {'mn': model.get('mn_y'), 'mx': model.get('mx_y')})))
+    # the same clauses when an operand is a CONSTANT (its parameter object is then a copy that carries the constant's own quantized data)
+    for opn in sorted(cc.SAME_AS_INPUT_REF | cc.SAME_AS_OUTPUT_REF):
+        if opn not in reg: continue
+        nin = len(mg.build(opn).ins)
+        for (bits, asym), k in itertools.product(ACT_CONFIGS, range(nin)):
+            m = mg.build(opn); m.make_const(m.ins[k]); oi, gi = mg.infos(m, qt, srq(qt, bits, asym)); cname = m.names[m.ins[k]]
+            tag = f'{opn}.a{bits}.{"sym" if asym else "asym"}.constant-operand-{cname}'; inputs = dict(family='same-scale', op=opn, bits=bits, act_symmetric=asym, constant_operand=cname)
+            Fm = 'naive_min_max_quantize.' + reg[opn].__name__
+            with cc.guarded(goals, tag, Fm, inputs):
+                qsv = M.nmm.init_qsvs(oi, gi)
+                for kn in list(qsv):
+                    if not qsv[kn]: r_ = len(m.tensors[m.names.index(kn)].shape); qsv[kn] = {'min': np.full((1,) * r_, -1.5, np.float32), 'max': np.full((1,) * r_, 2.25, np.float32)}
+                rn = by_name(reg[opn](oi, gi, qsv))
+                if opn in cc.SAME_AS_INPUT_REF:
+                    ref_p = rn['x'].consumers[0].parameters; others = [rn[m.names[o]].producer.parameters for o in m.outs]
+                else:
+                    ref_p = rn['y'].producer.parameters; others = [rn[m.names[i]].consumers[0].parameters for i in m.ins]
+                goals.append(G(f'{tag}.parameters-are-shared', Fm, ok=bool(ref_p is not None and all(same_params(o, ref_p) for o in others)), inputs=inputs,
+                               clause='with a constant operand: every tensor tied by the same-scale rule has equal (scale, zero_point, num_bits, symmetric, quantized_dimension)'))
     return goals
 
 # ------------------------------------------------------------------------------------------------ (e) quantized dimension
@@ -211,13 +247,15 @@ def fam_qdim(M):
             skipped.append((opn, adj, rank)); continue                       # the spec dimension does not exist in a tensor of this rank: not a weight of this op
         m = mg.build(opn, bias=False, adj_y=bool(adj), weight_shape=shape); wcfg = qt.TensorQuantizationConfig(8, True, Gr(gran))
         oi, gi = mg.infos(m, qt, qt.OpQuantizationConfig(weight_tensor_config=wcfg, compute_precision=qt.ComputePrecision.INTEGER))
-        t = m.tensors[m.weight]; data = m.data[m.weight]
-        st = M.utils.init_tensor_min_max(t, gi, oi)
-        p = M.utils._get_tensor_quant_params(oi, st, wcfg, tensor_content=data)
+        t = m.tensors[m.weight]; data = m.data[m.weight]; st = None
+        tag = f'{opn}' + (f'.adj_y-{adj}' if adj is not None else '') + f'.rank{rank}.{gran.lower()}'
+        with cc.guarded(goals, tag, Fi, dict(family='qdim-relational', op=opn, adj_y=adj, rank=rank, granularity=gran, shape=shape)):
+            st = M.utils.init_tensor_min_max(t, gi, oi)
+            p = M.utils._get_tensor_quant_params(oi, st, wcfg, tensor_content=data)
+        if st is None: continue
         wshape = channel_shape(shape, qd) if qd is not None else (1,) * rank
         ok = (set(st) == {'min', 'max'} and st['min'].shape == wshape and st['max'].shape == wshape and p.quantized_dimension == qd and p.scale.shape == wshape and p.zero_point.shape == wshape
               and p.scale.size == (shape[qd] if qd is not None else 1) and p.quantized_data.shape == shape)
-        tag = f'{opn}' + (f'.adj_y-{adj}' if adj is not None else '') + f'.rank{rank}.{gran.lower()}'
         goals.append(G(f'{tag}.statistics-axes-agree-with-quantized_dimension-{qd}', Fi, ok=bool(ok), inputs=dict(family='qdim-relational', op=opn, adj_y=adj, rank=rank, granularity=gran, shape=shape),
                        observed=dict(min_shape=st['min'].shape, qdim=p.quantized_dimension, scale_shape=p.scale.shape),
                        clause=f'min/max/scale/zero_point shape == {wshape} (size of dimension {qd} there, 1 elsewhere) and quantized_dimension == {qd}: one parameter per slice along the dimension the statistics were NOT reduced over'))
@@ -243,21 +281,23 @@ def fam_statistics(M):
             oi, gi = mg.infos(m, qt, qt.OpQuantizationConfig(weight_tensor_config=wcfg, compute_precision=qt.ComputePrecision.INTEGER))
             t = m.tensors[m.weight]; want_axes = None if qd is None else tuple(d for d in range(rank) if d != qd)
             wshape = channel_shape(shape, qd) if qd is not None else (1,) * rank
-            with symnp.session() as cx:
-                st = Mx.utils.init_tensor_min_max(t, gi, oi); red = getattr(cx, 'reductions', []); X = made.get(id(t))
-                ok = (isinstance(st, dict) and set(st) == {'min', 'max'} and len(red) == 2 and {r['name'] for r in red} == {'min', 'max'}
-                      and all(r['operand'] is X and r['keepdims'] is True and r['axis'] == want_axes and st[r['name']] is r['result'] and r['result'].shape == wshape for r in red))
-                tag = f'{opn}' + (f'.adj_y-{adj}' if adj is not None else '') + f'.rank{rank}.{gran.lower()}'
-                goals.append(G(f'{tag}.statistics-are-min/max-of-the-content-over-axes-{want_axes}', Fi, ok=bool(ok), backend='cpython-exec',
-                               inputs=dict(family='statistics', op=opn, adj_y=adj, rank=rank, granularity=gran),
-                               observed=[dict(name=r['name'], axis=r['axis'], keepdims=r['keepdims'], shape=r['result'].shape) for r in red],
-                               clause=f'for every constant content: result == {{min: np.min(content, axis={want_axes}, keepdims=True), max: np.max(...same...)}}, shape {wshape}: the true per-'
-                                      + ('tensor' if qd is None else f'slice (dimension {qd})') + ' minimum / maximum of the unmodified content'))
-                p = Mx.utils._get_tensor_quant_params(oi, st, wcfg, tensor_content=X)
-                s_ref, _, _ = cc.ref_params(st['min'].term, st['max'].term, 8, True)
-                goals.append(G(f'{tag}.parameters-from-those-statistics', 'min_max_quantize_utils._get_tensor_quant_params', [st['min'].term <= st['max'].term] + cx.hyps(),
-                               z3.And(p.scale.term == s_ref, p.zero_point.term == 0, z3.BoolVal(p.quantized_dimension == qd and p.scale.shape == wshape and p.zero_point.shape == wshape and p.quantized_data.shape == shape)),
-                               inputs=dict(family='statistics', op=opn, adj_y=adj, rank=rank, granularity=gran)))
+            tag = f'{opn}' + (f'.adj_y-{adj}' if adj is not None else '') + f'.rank{rank}.{gran.lower()}'
+            with cc.guarded(goals, tag, Fi, dict(family='statistics', op=opn, adj_y=adj, rank=rank, granularity=gran)):
+                with symnp.session() as cx:
+                    st = Mx.utils.init_tensor_min_max(t, gi, oi); red = getattr(cx, 'reductions', []); X = made.get(id(t))
+                    ok = (isinstance(st, dict) and set(st) == {'min', 'max'} and len(red) == 2 and {r['name'] for r in red} == {'min', 'max'}
+                          and all(r['operand'] is X and r['keepdims'] is True and r['axis'] == want_axes and st[r['name']] is r['result'] and r['result'].shape == wshape for r in red))
+                    tag = f'{opn}' + (f'.adj_y-{adj}' if adj is not None else '') + f'.rank{rank}.{gran.lower()}'
+                    goals.append(G(f'{tag}.statistics-are-min/max-of-the-content-over-axes-{want_axes}', Fi, ok=bool(ok), backend='cpython-exec',
+                                   inputs=dict(family='statistics', op=opn, adj_y=adj, rank=rank, granularity=gran),
+                                   observed=[dict(name=r['name'], axis=r['axis'], keepdims=r['keepdims'], shape=r['result'].shape) for r in red],
+                                   clause=f'for every constant content: result == {{min: np.min(content, axis={want_axes}, keepdims=True), max: np.max(...same...)}}, shape {wshape}: the true per-'
+                                          + ('tensor' if qd is None else f'slice (dimension {qd})') + ' minimum / maximum of the unmodified content'))
+                    p = Mx.utils._get_tensor_quant_params(oi, st, wcfg, tensor_content=X)
+                    s_ref, _, _ = cc.ref_params(st['min'].term, st['max'].term, 8, True)
+                    goals.append(G(f'{tag}.parameters-from-those-statistics', 'min_max_quantize_utils._get_tensor_quant_params', [st['min'].term <= st['max'].term] + cx.hyps(),
+                                   z3.And(p.scale.term == s_ref, p.zero_point.term == 0, z3.BoolVal(p.quantized_dimension == qd and p.scale.shape == wshape and p.zero_point.shape == wshape and p.quantized_data.shape == shape)),
+                                   inputs=dict(family='statistics', op=opn, adj_y=adj, rank=rank, granularity=gran)))
     # activations: no statistics are invented for a tensor without constant data
     m = mg.build('FULLY_CONNECTED'); oi, gi = mg.infos(m, qt, qt.OpQuantizationConfig(weight_tensor_config=qt.TensorQuantizationConfig(8, True), compute_precision=qt.ComputePrecision.INTEGER))
     with symnp.session() as cx:
@@ -289,10 +329,13 @@ def fam_bias_wiring(M, reg):
         calls = []; real = M.uq.symmetric_quantize_bias_tensor
         def spy(*a, **k):
             r = real(*a, **k); calls.append((a, k, r)); return r
-        M.uq.symmetric_quantize_bias_tensor = spy
-        try: res = reg[opn](oi, gi, qsv)
-        finally: M.uq.symmetric_quantize_bias_tensor = real
-        rn = by_name(res); is_srq = mode.startswith('srq'); inputs = dict(family='bias-wiring', op=opn, mode=mode, bias=has_bias); tag = f'{opn}.{mode}.{"bias" if has_bias else "no-bias"}'
+        M.uq.symmetric_quantize_bias_tensor = spy; res = None
+        inputs = dict(family='bias-wiring', op=opn, mode=mode, bias=has_bias); tag = f'{opn}.{mode}.{"bias" if has_bias else "no-bias"}'
+        with cc.guarded(goals, tag, Fm, inputs):
+            try: res = reg[opn](oi, gi, qsv)
+            finally: M.uq.symmetric_quantize_bias_tensor = real
+        if res is None: continue
+        rn = by_name(res); is_srq = mode.startswith('srq')
         if not has_bias:
             goals.append(G(f'{tag}.no-bias-parameters', Fm, ok=(not calls and 'b' not in rn), inputs=inputs, clause='an absent bias operand (-1 / missing) gets no entry and is never quantized')); continue
         e = rn['b'].consumers[0]; pos = m.pos
@@ -340,8 +383,8 @@ CANARIES = [
     ('TFL_OP_TO_WEIGHT_QUANTIZED_DIM: DEPTHWISE_CONV_2D 3 -> 0', cc.FBU, '_TFLOpName.DEPTHWISE_CONV_2D: 3,', '_TFLOpName.DEPTHWISE_CONV_2D: 0,', 'qdim', ['equals-the-spec-table', 'DEPTHWISE_CONV_2D.channelwise.quantized_dimension-is-3']),
     ('_get_reduce_dims: != -> ==', cc.UTILS, 'if rank_idx != quantized_dim:', 'if rank_idx == quantized_dim:', 'qdim', ['rank4.qdim-3.is-the-complement', 'CONV_2D.rank4.channelwise.statistics-axes-agree-with-quantized_dimension-0']),
     ('_get_bmm_weight_quantized_dim: rank - 2 -> rank - 1', cc.UTILS, 'return rank - 2', 'return rank - 1', 'qdim', ['rank3.adj_y-True.is-rank-2']),
-    ('_materialize_standard_op_with_same_as_input_scale: outputs no longer receive the input parameters', cc.UTILS, 'quant_params=input_tensor_params.consumers[0].parameters,', 'quant_params=None,', 'same-scale', ['RESHAPE.a8.asym.every-output-carries-the-input-parameter-object', 'SPLIT.a8.asym.constraint-kind-is-input']),
-    ('materialize_concatenation: SAME_AS_OUTPUT_SCALE -> NO_CONSTRAIN', cc.NMM, 'constraint=_OpQuantConstraint.SAME_AS_OUTPUT_SCALE,', 'constraint=_OpQuantConstraint.NO_CONSTRAIN,', 'same-scale', ['CONCATENATION.a8.asym.every-input-carries-the-output-parameter-object']),
+    ('_materialize_standard_op_with_same_as_input_scale: outputs no longer receive the input parameters', cc.UTILS, 'quant_params=input_tensor_params.consumers[0].parameters,', 'quant_params=None,', 'same-scale', ['RESHAPE.a8.asym.every-output-carries-the-input-parameters', 'SPLIT.a8.asym.constraint-kind-is-input']),
+    ('materialize_concatenation: SAME_AS_OUTPUT_SCALE -> NO_CONSTRAIN', cc.NMM, 'constraint=_OpQuantConstraint.SAME_AS_OUTPUT_SCALE,', 'constraint=_OpQuantConstraint.NO_CONSTRAIN,', 'same-scale', ['CONCATENATION.a8.asym.every-input-carries-the-output-parameters']),
     ('_get_tensor_quant_params: symmetric flag negated on the way into tensor_zp_scale_from_min_max', cc.UTILS, '      tensor_quant_config.symmetric,\n  )\n  quantized_dim = None', '      not tensor_quant_config.symmetric,\n  )\n  quantized_dim = None', 'params', ['b8.sym.tensorwise.activation.scale-equals-reference']),
     ('_get_tensor_quant_params: min and max swapped', cc.UTILS, '      tensor_min_max["min"],\n      tensor_min_max["max"],', '      tensor_min_max["max"],\n      tensor_min_max["min"],', 'params', ['b8.asym.tensorwise.activation.zero-point-equals-reference']),
     ('_materialize_bias_for_conv_ops: bias quantized against the weight parameters twice', cc.NMM, 'op_tensor_params[op_input_index].consumers[0].parameters,', 'op_tensor_params[op_weight_index].consumers[0].parameters,', 'bias-wiring', ['FULLY_CONNECTED.srq-a8.bias.bias-quantized-from-THE-input-and-weight-parameter-objects']),
